@@ -43,10 +43,26 @@ Proof. apply total_safe. apply columns_total. Qed.
 (* ------------------------------------------------------------------ *)
 (* mongokit.Project *)
 
-(* every array the projection can look at is shorter than any Go slice can
-   be (the model's lists are unbounded, a Go slice is not) *)
-Definition short_arrays (d : doc) : Prop :=
-  forall p a, Get d p = VArr a -> (len a < two63 - two31)%Z.
+(* $slice: for a well-typed argument the window arithmetic stays inside the
+   array (SliceWindow.v); model lists longer than any Go slice are Unmodelled *)
+Lemma project_slice_safe st d o k x : wf x = true -> safe (project_slice st d o k x).
+Proof.
+  intro Hw.
+  assert (Hfrom : (forall a, Get d k = VArr a -> (len a < two63 - two31)%Z) ->
+                  safe (project_slice st d o k x)).
+  { intro Hlen. destruct (slice_total st d o k x Hw Hlen) as [H|[st' H]]; rewrite H; exact I. }
+  destruct (Get d k) eqn:Eg; try (apply Hfrom; intros a' E; discriminate E).
+  destruct (max_slice_len <=? len a)%Z eqn:El.
+  - unfold project_slice. rewrite Eg, El.
+    match goal with |- safe (bind ?A _) => assert (Ha : safe A) end.
+    { destruct x; try exact I;
+        try (match goal with |- safe (match ?X with _ => _ end) => destruct X end; exact I).
+      destruct a0 as [|x0 [|y0 [|z0 t0]]]; try exact I.
+        destruct (project_slice_int x0); [|exact I].
+        destruct (project_slice_int y0) as [l|]; [|exact I]. destruct (l <? 0)%Z; exact I. }
+    apply bind_safe_all; [exact Ha|]. intros [[sk li] hs]. exact I.
+  - apply Hfrom. intros a' E. inversion E. subst a'. apply Z.leb_gt in El. exact El.
+Qed.
 
 Section ProjectSafe.
   Variable matchf : doc -> doc -> res bool.
@@ -82,7 +98,6 @@ Section ProjectSafe.
   Qed.
 
   Variable d : doc.
-  Hypothesis Hshort : short_arrays d.
 
   Lemma first_match_safe a q : safe (first_match matchf a q).
   Proof.
@@ -100,7 +115,7 @@ Section ProjectSafe.
           destruct (compare _ (VInt64 1)); try exact I; destruct (compare _ (VInt64 0)); exact I.
       - intro b. destruct b; [exact I|]. destruct (String.eqb k "_id"); exact I. }
     destruct (String.eqb "$slice" o).
-    { inversion Hl. destruct (slice_total st d o k x Hw (Hshort k)) as [H|[st' H]]; rewrite H; exact I. }
+    { inversion Hl. apply project_slice_safe. exact Hw. }
     destruct (String.eqb "$elemMatch" o); [|discriminate].
     inversion Hl. unfold project_elem_match. destruct x; try exact I.
     destruct (Get d k); try exact I.
@@ -146,13 +161,13 @@ Section ProjectSafe.
   Qed.
 End ProjectSafe.
 
-(* the projection document is well-typed (int32 values fit 32 bits, ...) and
-   the arrays of the document are shorter than 2^63 - 2^31 *)
-Theorem Project_safe d pr : wf (VDoc pr) = true -> short_arrays d -> safe (Project d pr).
-Proof. intros Hw Hs. apply project_with_safe; [intros; apply Match_safe|exact Hs|exact Hw]. Qed.
+(* the projection document is well-typed: its int32 values fit 32 bits (an
+   int32 is not clamped by projectSliceInt because it cannot be out of range) *)
+Theorem Project_safe d pr : wf (VDoc pr) = true -> safe (Project d pr).
+Proof. intro Hw. apply project_with_safe; [intros; apply Match_safe|exact Hw]. Qed.
 
-(* both hypotheses are needed by the model: an int32 field outside the int32
-   range (not a Go value) reaches the window arithmetic unclamped *)
+(* the hypothesis is needed by the model: an "int32" outside the int32 range
+   (not a Go value) reaches the window arithmetic unclamped *)
 Example Project_needs_wf :
   Project [("a", VArr [VInt32 1])] [("a", VDoc [("$slice", VArr [VInt32 1; VInt32 9223372036854775807])])]
   = Panic.
